@@ -175,7 +175,6 @@ package keeper
 //@   let outmod = addr(k.GetPool(ctx, pair.AssetOutPoolID).0.ModuleName)
 //@   requires #lend-keyed: lf0 ==> l0.ID == lendID && l0.AvailableToBorrow >= 0
 //@   prune
-//@   requires #same-pool-pair: !pair.IsInterPool
 //@   requires #new-position: !k.HasBorrowForAddressByPair(ctx, addr, pairID)
 //@   letpost l1 = k.GetLend(ctx, lendID).0
 //@   letpost so1 = k.GetAssetStatsByPoolIDAndAssetID(ctx, pair.AssetOutPoolID, pair.AssetOut).0
